@@ -97,6 +97,18 @@ func (p *c14) Gen(seed uint64, i int, tier string) (any, bool) {
 	if strings.ContainsAny(user, "\x00") || strings.ContainsAny(pass, "\x00") {
 		user, pass = "user", "pass"
 	}
+	// empty parts, where the mechanism has room for them: RFC 4616 (PLAIN) demands 1*SAFE for
+	// authcid and passwd and RFC 8265 forbids zero-length SCRAM user names and passwords, so a
+	// conforming verifier accepts neither and the client may refuse them itself
+	e1, e2 := r.Chance(1, 14), r.Chance(1, 14)
+	if mech == "LOGIN" || mech == "LOGIN-NOENC" || mech == "CRAM-MD5" || mech == "XOAUTH2" {
+		if e1 {
+			user = ""
+		}
+		if e2 {
+			pass = ""
+		}
+	}
 	stored := refsmtpd.AuthCfg{User: user, Pass: pass}
 	stored.Salt = r.Bytes(sim.Pick(r, []int{0, 1, 4, 8, 16, 16, 32, 64, r.Intn(65)}))
 	stored.Iter = sim.Pick(r, []int{1, 2, 3, 16, 64, 100, 1 + r.Intn(300), 4096, 1 + r.Intn(20000)})
@@ -118,6 +130,9 @@ func (p *c14) Gen(seed uint64, i int, tier string) (any, bool) {
 		sc.How = sim.Pick(r, []string{"pass-byte", "user-byte", "pass-case", "pass-trailing-blank", "swapped", "pass-prefix", "user-case"})
 		flip := func(s string) string {
 			b := []byte(s)
+			if len(b) == 0 {
+				return "a"
+			}
 			k := r.Intn(len(b))
 			if b[k] < 0x80 && b[k] != 'a' {
 				b[k] = 'a'
@@ -193,6 +208,11 @@ func (p *c14) Gen(seed uint64, i int, tier string) (any, bool) {
 	if strings.HasPrefix(mech, "CUSTOM-SCRAM") {
 		sc.Retry = "fail-then-retry"
 	}
+	// the outcome must not depend on whether the dialogue is being logged
+	if r.Chance(1, 3) {
+		sc.Client.Debug = true
+		sc.Client.LogAuthData = r.Chance(1, 4)
+	}
 	return sc, true
 }
 
@@ -208,7 +228,7 @@ func (p *c14) Exec(t *testing.T, scAny any) Outcome {
 			env.Srv.Cfg.Rules = append(env.Srv.Cfg.Rules, refsmtpd.Rule{Verb: "AUTHRESP", Nth: 2, Conn: 1, Action: refsmtpd.Action{Code: 454, Text: "temporary authentication failure"}})
 		}
 		return func() {
-			c, err := BuildClient(sc.Client, env.Dial, nil)
+			c, err := BuildClient(sc.Client, env.Dial, &CaptureLogger{})
 			if err != nil {
 				out.Infra = err.Error()
 				return
